@@ -416,6 +416,18 @@ def rnd_random(I, a, k):
     return v
 
 
+def np_random_rand(I, a, k):
+    """numpy.random.rand(d0[, d1]): an array of that shape of arbitrary reals in [0, 1) (no distributional claim)"""
+    dims = list(a)
+    if not dims:
+        return rnd_random(I, [], {})
+    if not all(isinstance(d, int) and not isinstance(d, bool) and d >= 0 for d in dims) or len(dims) > 2:
+        raise Unsupported('numpy.random.rand with a symbolic or >2-d shape')
+    if len(dims) == 1:
+        return I.st.alloc('clist', [rnd_random(I, [], {}) for _ in range(dims[0])], nd=True)
+    return I.st.alloc('clist', [I.st.alloc('clist', [rnd_random(I, [], {}) for _ in range(dims[1])], nd=True) for _ in range(dims[0])], nd=True)
+
+
 def rnd_randint(I, a, k):
     v = _draw(I, 'rnd_randint', 'int')
     I.st.assume(z3.And(v.t >= zint(a[0]), v.t <= zint(a[1])))
@@ -1061,6 +1073,8 @@ def lib_lookup(I, dotted):
         'numpy.allclose': Builtin('numpy.allclose', np_allclose),
         'numpy.prod': Builtin('numpy.prod', np_prod), 'numpy.product': Builtin('numpy.prod', np_prod),
         'random.random': Builtin('random.random', rnd_random),
+        'numpy.random.rand': Builtin('numpy.random.rand', np_random_rand),
+        'numpy.random.random': Builtin('numpy.random.random', lambda I_, a, k: np_random_rand(I_, list(a[0]) if a and isinstance(a[0], tuple) else list(a), {})),
         'random.sample': Builtin('random.sample', rnd_sample),
         'random.randint': Builtin('random.randint', rnd_randint),
         'random.uniform': Builtin('random.uniform', rnd_uniform),
